@@ -35,7 +35,9 @@ _C02_REQ = ["epochs", "epochs_in_leak", "epochs_finalizing", "epochs_justifying"
             "activation_queue_exceeds_churn_phase0", "activation_queue_exceeds_churn_altair",
             "activation_queue_exceeds_churn_bellatrix", "activation_queue_exceeds_churn_capella",
             "ejections_exceed_churn_phase0", "ejections_exceed_churn_altair", "ejections_exceed_churn_bellatrix",
-            "ejections_exceed_churn_capella", "ejections_exceed_churn_deneb"]
+            "ejections_exceed_churn_capella", "ejections_exceed_churn_deneb",
+            # interaction classes steered by the TLC-generated scenario scripts (spec/BeaconScenario.tla)
+            "tlc_behaviours", "leak_across_fork_boundary", "correlated_slashing_penalties", "topup_crossed_hysteresis"]
 _C01_REQ = ["blocks_phase0", "blocks_altair", "blocks_bellatrix", "blocks_capella", "blocks_deneb",
             "ops_pslash", "ops_aslash", "ops_atts", "ops_deposits", "ops_exits", "ops_bls_changes",
             "ops_atts_phase0", "ops_atts_altair", "ops_atts_deneb", "ops_exits_deneb", "ops_pslash_phase0",
@@ -45,15 +47,56 @@ _C01_REQ = ["blocks_phase0", "blocks_altair", "blocks_bellatrix", "blocks_capell
             "deposits_new_validator", "deposits_topup_or_skipped", "eth1_data_changes", "validators_slashed",
             "exits_initiated_in_block", "blocks_after_skipped_slots", "blocks_at_epoch_start_with_epoch_processing",
             "blocks_with_several_operation_kinds", "atts_previous_epoch", "atts_beyond_one_epoch_deneb",
-            "blocks_with_blob_commitments", "fork_upgrades"]
+            "blocks_with_blob_commitments", "fork_upgrades",
+            # interaction classes steered by the TLC-generated scenario scripts (spec/BeaconScenario.tla)
+            "tlc_behaviours", "exit_queued_behind_earlier_exits", "slashed_while_exiting", "topup_of_exited_validator",
+            "partial_withdrawal_after_bls_change", "full_withdrawal_after_bls_change",
+            "eth1_vote_exactly_half_not_adopted", "eth1_vote_half_plus_one_adopted", "sync_partial_with_duplicate_members",
+            "atts_delay_upto_sqrt", "atts_delay_upto_epoch", "atts_delay_beyond_epoch",
+            "tlc_intent_exit_honoured", "tlc_intent_exit2_honoured", "tlc_intent_pslash_honoured", "tlc_intent_aslash_honoured",
+            "tlc_intent_slash_exiting_honoured", "tlc_intent_bls_change_honoured", "tlc_intent_deposit_new_honoured",
+            "tlc_intent_deposit_bad_pop_honoured", "tlc_intent_topup_honoured", "tlc_intent_topup_exited_honoured",
+            "tlc_intent_topup_partial_honoured"]
 REQUIRED = {"C02": {"quick": _C02_REQ, "thorough": _C02_REQ}, "C01": {"quick": _C01_REQ, "thorough": _C01_REQ}}
 
 JAVA_OPTS = "-Xss512m -XX:TieredStopAtLevel=1 -XX:ParallelGCThreads=2 -XX:CICompilerCount=1"
 
 
+TLC_SCRIPTS = {"quick": 30, "thorough": 300}
+SCENARIO_SLOTS = 56
+
+
+def generate_scripts(tier, seed):
+    """Spec -> code direction: TLC simulates the coarse scenario model spec/BeaconScenario.tla (seeded) and prints
+    one intent script per behaviour; returns (path of an ndjson file with one script per line, number of scripts)."""
+    n = TLC_SCRIPTS[tier]
+    wd = lib.fresh_spec_copy({"gen.cfg": "INIT Init\nNEXT Next\nCONSTANT MaxSlot = %d\n" % SCENARIO_SLOTS})
+    res = lib.tlc("BeaconScenario", cfg="gen.cfg", workdir=wd, workers=1, timeout=900, simulate="num=%d" % n,
+                  depth=SCENARIO_SLOTS + 4, seed=seed, deadlock=False, java_opts="-Xss512m")
+    shutil.rmtree(wd, ignore_errors=True)
+    scripts = []
+    for line in res.out.splitlines():
+        line = line.strip()
+        if line.startswith('"{'):
+            try:
+                scripts.append(json.loads(line))
+            except ValueError:
+                pass
+    if len(scripts) < n // 2:
+        raise lib.InfraError("BeaconScenario produced %d of %d behaviours:\n%s" % (len(scripts), n, res.out[-3000:]))
+    path = os.path.join(lib.scratch("beacon"), "scripts-%s-%d.ndjson" % (tier, seed))
+    with open(path, "w") as f:
+        for s in scripts:
+            f.write(s + "\n")
+    return path, len(scripts)
+
+
 def record(tier, seed, family, extra_args=()):
     """Run the recorder (sharded over the cores); returns (directory, merged stats dict)."""
     binary = lib.build_harness("beacon")
+    if "tlc" in family.split(","):
+        path, _ = generate_scripts(tier, seed)
+        extra_args = list(extra_args) + ["-scripts", path]
     out = os.path.join(lib.scratch("beacon"), "traces-%s-%d-%s" % (tier, seed, family.replace(",", "_")))
     if os.path.isdir(out):
         shutil.rmtree(out)
@@ -185,7 +228,7 @@ def summarize_events(files, kind):
     return n, len(digests), nontrivial, samples, histories
 
 
-def run_check(pid, tier, seed, replay=None, family="idle,chain"):
+def run_check(pid, tier, seed, replay=None, family="idle,chain,tlc"):
     t0 = time.time()
     kind = KIND_OF[pid]
     if replay:
@@ -249,6 +292,9 @@ def run_check(pid, tier, seed, replay=None, family="idle,chain"):
         "samples": samples,
         "counters": counters,
         "known_finding_hits": len(known_hits),
+        "tlc_generated_behaviours": counters.get("tlc_behaviours", 0),
+        "tlc_intents": {k[len("tlc_intent_"):]: v for k, v in counters.items() if k.startswith("tlc_intent_")},
+        "tlc_goals": {k[len("tlc_goal_"):]: v for k, v in counters.items() if k.startswith("tlc_goal_")},
         "tlc_wall_s": round(sum(r["wall"] for r in results), 1),
     }
     seen = set()
@@ -381,7 +427,7 @@ def selftest():
     """Binding self-test: the trace specification rejects a corrupted and a truncated trace, and a canned
     mutation of zrnt is reported as a VIOLATION by the real check commands."""
     report = []
-    out, stats = record("quick", 1, "chain", ["-only", "random-0"])
+    out, stats = record("quick", 1, "chain", ["-only", "random-0"])  # (no tlc family: plain chain histories)
     files = sorted(f["path"] for f in stats["files"] if f["events"] > 10)
     if not files:
         raise lib.InfraError("selftest: no trace recorded")
